@@ -193,3 +193,40 @@ package calc
 //@   loop 1 invariant -1 <= rangeindex && rangeindex < len(updates) && len(filteredUpdates) == len(updates) && fresh(filteredUpdates)
 //@   loop 1 invariant forall j int :: 0 <= j && j <= rangeindex ==> filteredUpdates[j].KVPair.Key == updates[j].KVPair.Key && (filteredUpdates[j].KVPair.Value == updates[j].KVPair.Value || filteredUpdates[j].KVPair.Value == nil) && (c05Must[j] ==> filteredUpdates[j].KVPair.Value == nil)
 //@   loop 1 invariant forall j int :: j > rangeindex ==> !c05Must[j]
+
+//@ -- ---------------------------------------------------------------- C02: flush order
+//@ -- Flush emits the buffered changes in dependency order.  The obligations are a partial order, not the
+//@ -- literal statement sequence: whatever a message may reference has been flushed before it, and nothing is
+//@ -- removed before everything that could stop referencing it has been flushed.
+//@ --   adds:     IP sets -> IP set deltas; IP sets -> policies; policies, profiles -> endpoints
+//@ --   removals: endpoint updates -> endpoint removals -> profile/policy removals -> IP set removals;
+//@ --             policy updates -> IP set removals (an updated policy may stop using a set)
+//@ --   VXLAN:    route removals -> VTEP removals; VTEP adds -> route adds
+//@ ghost c02Sets bool
+//@ ghost c02Deltas bool
+//@ ghost c02Pols bool
+//@ ghost c02Profs bool
+//@ ghost c02Eps bool
+//@ ghost c02EpDels bool
+//@ ghost c02ProfDels bool
+//@ ghost c02PolDels bool
+//@ ghost c02RouteDels bool
+//@ ghost c02VTEPAdds bool
+//@ func (*EventSequencer).Flush
+//@   property C02
+//@   option safety off
+//@   requires !c02Sets && !c02Deltas && !c02Pols && !c02Profs && !c02Eps && !c02EpDels && !c02ProfDels && !c02PolDels && !c02RouteDels && !c02VTEPAdds
+//@   ghost at call flushAddedIPSets: c02Sets = true
+//@   ghost at call flushIPSetDeltas: check c02Sets ; c02Deltas = true
+//@   ghost at call flushPolicyUpdates: check c02Sets ; c02Pols = true
+//@   ghost at call flushProfileUpdates: check c02Sets ; c02Profs = true
+//@   ghost at call flushEndpointTierUpdates: check c02Pols && c02Profs ; c02Eps = true
+//@   ghost at call flushEndpointTierDeletes: check c02Eps ; c02EpDels = true
+//@   ghost at call flushProfileDeletes: check c02Eps && c02EpDels ; c02ProfDels = true
+//@   ghost at call flushPolicyDeletes: check c02Eps && c02EpDels ; c02PolDels = true
+//@   ghost at call flushRemovedIPSets: check c02Pols && c02PolDels && c02Deltas
+//@   ghost at call flushRouteRemoves: c02RouteDels = true
+//@   ghost at call flushVTEPRemoves: check c02RouteDels
+//@   ghost at call flushVTEPAdds: c02VTEPAdds = true
+//@   ghost at call flushRouteAdds: check c02VTEPAdds
+//@   ensures c02Sets && c02Deltas && c02Pols && c02Profs && c02Eps && c02EpDels && c02ProfDels && c02PolDels && c02RouteDels && c02VTEPAdds
